@@ -1,4 +1,4 @@
-import PysphVerif.Lemmas.Controller
+import PysphVerif.Lemmas.ControllerLive2
 /-!
 # C18 — the solver controller never loses a command or a wake-up
 
@@ -145,6 +145,55 @@ theorem wait_returns_only_when_honoured (cfg : Cfg) (hw : cfg.waitPred = true) (
            decide_eq_false_iff_not, Decidable.not_not] at hm
          exact hm)
 
+/-! ## the repaired protocol: the wake-up cannot be lost, the pause fragment never deadlocks -/
+
+/-- Repaired `wait()` (any variant with the predicate loop and the un-nested
+`cont()`): a thread sitting un-notified in `plock`'s wait set has an active
+pause request that the solver has NOT yet honoured — or the solver is exactly at
+its `notify_all`.  So the state of `lost_wakeup_reachable` (waiter blocked, its
+request already served, solver past the notify) is unreachable. -/
+theorem wait_wakeup_not_lost (cfg : Cfg) (hw : cfg.waitPred = true) (hn : cfg.contNested = false)
+    (progs : Tid → List Op) (s : State) (hr : Reachable cfg progs s) (u : Tid)
+    (hu : u ∈ s.pWait) :
+    (s.th u).pc = IPc.wBlocked ∧ u ∈ s.pause ∧ (u ∉ s.paused ∨ s.spc = SPc.ntaP) :=
+  ⟨(reachable_w hw hn hr).waiting u hu, (reachable_w hw hn hr).kept u hu⟩
+
+/-- `plock` is held by at most one thread, and only at the program counters
+that the code holds it at (repaired `wait`/`cont`). -/
+theorem plock_mutual_exclusion (cfg : Cfg) (hw : cfg.waitPred = true) (hn : cfg.contNested = false)
+    (progs : Tid → List Op) (s : State) (hr : Reachable cfg progs s) (u v : Tid)
+    (hu : holdsP (s.th u).pc = true) (hv : holdsP (s.th v).pc = true) : u = v := by
+  have h := reachable_w hw hn hr
+  have := (h.owner u hu).symm.trans (h.owner v hv)
+  exact Option.some.inj this
+
+/-- **No deadlock in the pause fragment of the repaired protocol.**  For any
+number of interface threads running well-formed programs over `get`, blocking
+`set`, `pause_on_next`, `wait`, `cont` (balanced pause sections, `wait`/`cont`
+only inside), in every reachable state under every schedule some thread can
+take a step; in particular the states of `lost_wakeup_reachable` and
+`lock_order_deadlock_reachable` (same programs!) are unreachable after the
+repair. -/
+theorem no_deadlock_pause_fragment (ps : List (List Op))
+    (hwf : ∀ p ∈ ps, WFp false p = true) (s : State)
+    (hr : Reachable Cfg.fixed (progsOf ps) s) :
+    ∃ t, t ≤ ps.length ∧ enabled Cfg.fixed s t = true :=
+  frag_not_stuck (reachable_f hwf hr) (reachable_w rfl rfl hr) (reachable_pinv hr)
+
+/-- …and whenever the solver itself is blocked, it is an *interface* thread
+that can move (so a blocked solver is always released by its controllers). -/
+theorem blocked_solver_has_enabled_controller (ps : List (List Op))
+    (hwf : ∀ p ∈ ps, WFp false p = true) (s : State)
+    (hr : Reachable Cfg.fixed (progsOf ps) s) (hb : enabled Cfg.fixed s 0 = false) :
+    ∃ t, 1 ≤ t ∧ t ≤ ps.length ∧ enabled Cfg.fixed s t = true := by
+  obtain ⟨t, ht, he⟩ := no_deadlock_pause_fragment ps hwf s hr
+  refine ⟨t, ?_, ht, he⟩
+  cases t with
+  | zero => rw [hb] at he; cases he
+  | succ k => exact Nat.succ_le_succ (Nat.zero_le _)
+
+example : WFp false [Op.pause, Op.wait, Op.get, Op.cont, Op.setNow 3] = true := by decide
+
 /-! ## the pinned protocol blocks threads forever (`Cfg.orig`) -/
 
 private def oneThread (ops : List Op) : State := init (progsOf [ops])
@@ -224,9 +273,11 @@ example : ∃ s, Reachable Cfg.fixed (progsOf [[Op.pause, Op.wait, Op.cont]]) s 
 /-! ## liveness of the repaired protocol — statement only
 
 The full claim "no interleaving leaves the solver or an interface thread
-blocked forever" for the repaired protocol.  NOT proved here (it needs the
-lock-ownership invariant for all five locks and a ranking argument under weak
-fairness); it is sampled on the real code by the harness (every well-formed
+blocked forever" for the repaired protocol INCLUDING queued commands and
+`get_result`.  Proved above for the pause fragment (`no_deadlock_pause_fragment`);
+with queued commands it is NOT proved here (it needs the ownership invariant of
+`res_lock` and the per-command locks as well, and that the solver never raises);
+that part is sampled on the real code by the harness (every well-formed
 program must finish under a fair continuation of every sampled schedule) and
 its three counterexamples for the pinned protocol are the theorems above. -/
 
